@@ -83,7 +83,7 @@ def phases(tier, n_docs_quick=4000, n_docs_thorough=200000):
     n = len(alphabet.LETTERS)
     out = []
     for l in range(1, L + 1) if L <= 4 else [L]:
-        out.append(Phase(f"alphabet-len{l}", "enum", items=(lambda l=l: Seqs(l, n)), exhaustive=True))
+        out.append(Phase(f"alphabet-len{l}", "enum", items=(lambda l=l: Seqs(l, n)), exhaustive=True, distinct=True))
     out.append(Phase("extracted-lists", "gen", strategy=doc_strategy, n=n_docs_quick if tier == "quick" else n_docs_thorough))
     return out
 
